@@ -7,6 +7,7 @@ import (
 	"context"
 	"fmt"
 	"math/rand"
+	"runtime"
 	"sort"
 	"sync"
 	"sync/atomic"
@@ -455,7 +456,7 @@ func poolStress(k *mon.Case) {
 	const G = 8
 	per := 40 + r.Intn(60)
 	var wg sync.WaitGroup
-	var bad atomic.Int64
+	var bad, cleanups atomic.Int64
 	mk := func(g, i int) *certificate.SingleCommit {
 		id := crypto.Hash([]byte{byte(g), byte(i), byte(i >> 8)})
 		return certificate.VerifNewSingleCommit(id, uint32(1+i), crypto.Hash([]byte{byte(g)})[:20], bytes.Repeat([]byte{byte(g)}, 96), i%2 == 0)
@@ -480,11 +481,19 @@ func poolStress(k *mon.Case) {
 					p.Get(uint32(1 + rr.Intn(per)))
 				case 2:
 					p.Size()
+				case 3:
+					// the periodic clean-up runs while commits keep arriving; its checker (which
+					// reads BFT parameters in the node) keeps everything here: nothing may get lost
+					if rr.Intn(4) == 0 {
+						p.Cleanup(func(h uint32) bool { runtime.Gosched(); return true })
+						cleanups.Add(1)
+					}
 				}
 			}
 		}(g, rand.New(rand.NewSource(r.Int63())))
 	}
 	wg.Wait()
+	k.Count("pool_cleanups_concurrent_with_adds", int(cleanups.Load()))
 	if bad.Load() > 0 {
 		k.Violation("pool:added-commit-not-visible", "Has(x) false right after Add(x) returned", map[string]any{"count": bad.Load()})
 	}
